@@ -57,12 +57,26 @@ HEADER = ("From Coq Require Import List NArith Bool.\nImport ListNotations.\n"
           "Definition wkey (e : path * bool) : str := (if snd e then 1 else 0) :: fst e.\n"
           "Definition ekey (e : event) : str := ev_mask e :: ev_path e.\n"
           "Definition tab (t : list (list path)) (i : N) (p : path) : bool := pmem p (nth (N.to_nat i) t []).\n"
+          "Definition is_bo (s : fstate) := match s with FS_BUILT | FS_OUTDATED => true | _ => false end.\n"
+          "Definition st_sim (a b : fstate) := fstate_eqb a b || (is_bo a && is_bo b).\n"
+          "Fixpoint files_sim (a b : list fnode) : bool := match a, b with [] , [] => true | x :: a', y :: b' => "
+          "str_eqb (f_path x) (f_path y) && Bool.eqb (f_attached x) (f_attached y) && st_sim (f_state x) (f_state y) "
+          "&& ofh_eqb (f_hash x) (f_hash y) && files_sim a' b' | _, _ => false end.\n"
+          "Fixpoint rows_eq (a b : list ngrow) : bool := match a, b with [], [] => true | x :: a', y :: b' => "
+          "paths_eqb (ng_matches x) (ng_matches y) && rows_eq a' b' | _, _ => false end.\n"
+          "Definition res_sim (r : option (gstate unit)) (err : bool) (fs : list fnode) (rows : list ngrow) : bool := "
+          "match r with None => err | Some g => negb err && files_sim (g_files g) fs && rows_eq (g_nglobs g) rows end.\n"
+          "Fixpoint assoc (l : list (path * N)) (p : path) : option N := match l with [] => None | (q, v) :: r => "
+          "if str_eqb q p then Some v else assoc r p end.\n"
+          "Definition idA : action -> path -> list fnode * unit -> list fnode * unit := fun _ _ x => x.\n"
+          "Definition idN : str -> list fnode * unit -> list fnode * unit := fun _ x => x.\n"
           "Definition run_events (t : tree) (w : watches) (evs : list event) : watches * list item :=\n"
           "  fold_left (fun acc ev => let o := process_event t (fst acc) ev in (fst o, snd acc ++ snd o)) evs (w, []).\n")
 
 
 def generate(ctx):
     from translator import gen_watch
+    ctx.facts = {}
     text, facts = gen_watch.generate()
     ctx.write_gen("GenWatch.v", text)
     ctx.facts = facts
@@ -199,7 +213,7 @@ def _rand_project(rng):
     if rng.random() < 0.8:
         o1 = rng.choice(["o1.txt", "d2/o1.txt"])
         s1 = {"cmd": "s1", "inp": rng.sample(ins, k=min(len(ins), rng.randint(0, 2))), "out": {o1: "O1"},
-              "state": rng.choice(["SUCCEEDED", "SUCCEEDED", "FAILED", "PENDING"])}
+              "state": rng.choice(["SUCCEEDED", "SUCCEEDED", "STALE", "FAILED", "PENDING"])}
         steps.append(s1)
         if rng.random() < 0.7:
             st2 = rng.choice(["SUCCEEDED", "FAILED", "PENDING"]) if s1["state"] == "SUCCEEDED" else rng.choice(["FAILED", "PENDING"])
@@ -270,12 +284,26 @@ async def _one_history(spec, ops, queued_during_build=0):
                         all_items += items
                     res["watch_keys"] = sorted(D.watches_dump(w))
                     # the first `queued_during_build` items are treated as queued while the build ran
+                    # Only changes to static files are promised to be picked up when they happen while
+                    # the build is still running: the leading items count as queued-during-build as
+                    # long as they concern declared static files.
+                    nqb = 0
+                    while nqb < min(queued_during_build, len(all_items)) and all_items[nqb][1] in spec.get("static", {}):
+                        nqb += 1
+                    queued_during_build = nqb
                     qb = all_items[:queued_during_build]
-                    await D.feed_changes(st, all_items[queued_during_build:])
                     res["items"] = all_items
+                    res["nqb"] = queued_during_build
+                    res["pre"] = await D.dump_graph(st)
+                    res["final_tree"] = _tree_entries()
+                    res["final_hashes"] = {}
+                    for p, isdir in res["final_tree"]:
+                        if not isdir:
+                            fh = D.real_hash(p)
+                            res["final_hashes"][p] = [fh.digest.hex(), fh.mode, fh.size]
                     D.backup_db(db, os.path.join(tmp, "b.db"))
                     try:
-                        await D.watch_commit(st, queued=qb)
+                        await D.watch_commit(st, queued=qb, items=all_items[queued_during_build:])
                     except Exception as e:  # noqa: BLE001
                         res["error"] = f"{type(e).__name__}: {e}"
                     res["watch_reports"] = list(st.rep.calls)
@@ -353,6 +381,50 @@ def _batch_checks(batch, facts):
     return checks
 
 
+def _commit_checks(res):
+    """Model watch_commit / startup_rescan on the dumped pre-state versus the real results (files modulo
+    the BUILT->OUTDATED cascades of mark_step_pending, which live in the abstract on_action; nglob rows)."""
+    ids = {}
+
+    def hid(row):     # row = [state, digest hex, mode, size]
+        key = tuple(row[1:]) if not isinstance(row, tuple) else row
+        if key[0] == "75":      # b"u": unknown
+            return "None"
+        return f"(Some {ids.setdefault(key, len(ids) + 1)})"
+
+    def files_of(dump):
+        rows = [(l, True, r) for l, r in dump["files"].items()] + [(l, False, r) for l, r in dump["detached_files"].items()]
+        return coq_list([f"mk_fnode {coq_str(l)} {coq_bool(a)} FS_{r[0]} {hid(r)}" for l, a, r in sorted(rows)])
+
+    def rows_of(dump):
+        return coq_list([f"mk_ng {i} {coq_str(s)} true {coq_list([coq_str(m) for m in ms])}"
+                         for i, (s, _p, ms) in enumerate(dump["nglobs"])])
+    pre, a, b = res["pre"], res["a"], res["b"]
+    if [(x[0], x[1]) for x in pre["nglobs"]] != [(x[0], x[1]) for x in a["nglobs"]] or \
+            [(x[0], x[1]) for x in pre["nglobs"]] != [(x[0], x[1]) for x in b["nglobs"]]:
+        return []
+    from stepup.core.nglob import NamedGlob
+    exist = [p + ("/" if isdir else "") for p, isdir in res["final_tree"]]
+    universe = sorted(set(exist) | set(pre["files"]) | set(pre["detached_files"])
+                      | {m for _s, _p, ms in pre["nglobs"] for m in ms} | {p for _k, p in res["items"]})
+    regexes = [NamedGlob(p, {})._regex for _s, p, _m in pre["nglobs"]]
+    tab = coq_list([coq_list([coq_str(p) for p in universe if rx.fullmatch(p)]) for rx in regexes])
+    g = f"@mk_g unit {files_of(pre)} {rows_of(pre)} tt"
+    htab = coq_list([f"({coq_str(p)}, {ids.setdefault(tuple(v), len(ids) + 1)})" for p, v in sorted(res["final_hashes"].items())])
+    # ids must be final before printing g: re-render
+    g = f"@mk_g unit {files_of(pre)} {rows_of(pre)} tt"
+    items = coq_list([_coq_item(k, p, i < res["nqb"]) for i, (k, p) in enumerate(res["items"])])
+    uni = coq_list([coq_str(p) for p in universe])
+    ex = coq_list([coq_str(p) for p in exist])
+    common_let = (f"let g := {g} in let T := tab {tab} in let H := assoc {htab} in "
+                  f"let w := fold_changes (change_is_relevant unit T g) (relevant_paths_under unit g) {items} ws_empty in ")
+    out = [("commit_model", common_let + f"res_sim (watch_commit unit idA idN H T {uni} g (ws_updated w) (ws_deleted w)) "
+            f"{coq_bool(bool(res.get('error')))} {files_of(a)} {rows_of(a)}"),
+           ("rescan_model", common_let + f"res_sim (startup_rescan unit idA idN H (fun p => pmem p {ex}) T {uni} g) "
+            f"{coq_bool(bool(res.get('restart_error')))} {files_of(b)} {rows_of(b)}")]
+    return out
+
+
 WITNESSES = {
     # (spec, ops): the Coq witnesses replayed on the real watcher
     "D10-mkdir": ({"dirs": ["data/old"], "static": {"a.txt": "A"}, "globs": [{"step": "./plan.py", "pattern": "data/*/"}]},
@@ -384,6 +456,13 @@ WITNESSES = {
     "output-deleted": ({"static": {"a.txt": "A"}, "steps": [{"cmd": "s1", "inp": ["a.txt"], "out": {"o1.txt": "O"}},
                                                               {"cmd": "s2", "inp": ["o1.txt"], "out": {"o2.txt": "P"}}]},
                        [["rm", "o1.txt"]]),
+    "created-during-build": ({"static": {"a.txt": "A", "gone.txt": None},
+                              "steps": [{"cmd": "s1", "inp": ["a.txt", "gone.txt"], "out": {"o1.txt": "O"}, "state": "PENDING"}]},
+                             [["write", "gone.txt", "G"], ["write", "a.txt", "A2"]], 5),
+    "stale-output-changed": ({"static": {"a.txt": "A"},
+                              "steps": [{"cmd": "s1", "inp": ["a.txt"], "out": {"o1.txt": "O"}, "state": "STALE"},
+                                        {"cmd": "s2", "inp": ["o1.txt"], "out": {"o2.txt": "P"}, "state": "PENDING"}]},
+                             [["write", "o1.txt", "tampered"]]),
     "failed-step": ({"static": {"a.txt": "A"}, "steps": [{"cmd": "s1", "inp": ["a.txt"], "out": {"o1.txt": "O"}, "state": "FAILED"}]},
                     [["write", "b.txt", "x"]]),
 }
@@ -408,13 +487,26 @@ def _run_histories(ctx, nrandom, do_model=True):
     rng = ctx.rng
     seen = set()
     checks, descr = [], []
-    cases = [(name, spec, ops, 0) for name, (spec, ops) in WITNESSES.items()]
+    cases = [(name, w[0], w[1], w[2] if len(w) > 2 else 0) for name, w in WITNESSES.items()]
     for k in range(nrandom):
         spec = _rand_project(rng)
         ops = _rand_ops(rng, spec)
         cases.append((f"random-{k}", spec, ops, rng.choice([0, 0, 1, 2])))
     for name, spec, ops, qb in cases:
-        res = D.run(_one_history(spec, ops, qb), timeout=120)
+        try:
+            res = D.run(_one_history(spec, ops, qb), timeout=120)
+        except D.InotifyUnavailable:
+            ctx.count("histories_skipped_no_inotify_instance")
+            continue
+        except Exception as e:  # noqa: BLE001  (e.g. change_loop died: the wrapper re-raises on exit)
+            sig = f"history:exception:{type(e).__name__}"
+            ctx.count("histories_crashed")
+            if sig not in seen:
+                seen.add(sig)
+                ctx.add_failure("oracle", f"rebuild-vs-restart:{name}", sig,
+                                f"{name}: the watcher raised {type(e).__name__}: {e} while handling {ops!r}",
+                                witness={"case": name, "project": spec, "ops": ops, "exception": f"{type(e).__name__}: {e}"})
+            continue
         changed = bool(res.get("items"))
         ctx.case(("history", repr(spec), repr(ops)), nontrivial=changed)
         ctx.count("histories")
@@ -431,6 +523,10 @@ def _run_histories(ctx, nrandom, do_model=True):
         if name in ("delete-recreate", "dir-moved-and-back"):
             ctx.sample({"history": name, "ops": res["ops_applied"], "items": res.get("items"), "diff": res["diff"]})
         if do_model:
+            for kind, term in _commit_checks(res):
+                checks.append(term)
+                descr.append((kind, name, res["ops_applied"], res.get("items"), res["pre"], res["a"] if kind == "commit_model" else res["b"], res.get("error")))
+                ctx.case((kind, repr(spec), repr(ops)), nontrivial=changed)
             for b in res["batches"]:
                 for kind, term in _batch_checks(b, ctx.facts):
                     checks.append(term)
@@ -453,6 +549,9 @@ def correspondence(ctx):
 
 def oracle(ctx):
     checks, descr = _run_histories(ctx, ctx.scale(40, 400))
+    if ctx.stats.get("histories_skipped_no_inotify_instance"):
+        ctx.notes.append(f"{ctx.stats['histories_skipped_no_inotify_instance']} histories skipped: no free inotify "
+                         "instance (fs.inotify.max_user_instances exhausted by other processes)")
     bad = common.run_cases(ctx, "loop", HEADER, checks, chunk=100)
     ctx.traces_validated += len(checks) - len(bad)
     seen = set()
@@ -461,11 +560,11 @@ def oracle(ctx):
         if kind in seen:
             continue
         seen.add(kind)
-        sig = "change_loop:model-vs-real-events" if kind == "change_loop" else "kernel-model:file-operation-events"
+        sig = {"change_loop": "change_loop:model-vs-real-events", "kernel_rows": "kernel-model:file-operation-events",
+               "commit_model": "commit:model-vs-real-watch-commit", "rescan_model": "rescan:model-vs-real-startup-rescan"}[kind]
         ctx.add_failure("correspondence", kind, sig,
                         f"{kind}: model and real AsyncInotifyWrapper disagree on {descr[i][1:]!r}",
-                        witness={"kind": kind, "case": descr[i][1], "op": descr[i][2], "raw_events": descr[i][3],
-                                 "items": descr[i][4], "watches_before": descr[i][5], "watches_after": descr[i][6]})
+                        witness={"kind": kind, "case": descr[i][1], "detail": [repr(x)[:2000] for x in descr[i][2:]]})
 
 
 def search(ctx):
